@@ -698,6 +698,10 @@ class Cell(Numbered_MCNP_Object):
         }
 
         def cleanup_last_line(ret):
+            # a padding that ends in a line break (a value that came from the data block):
+            # the next parameter continues the input, it must not start in columns 1-5
+            if ret.endswith("\n"):
+                return ret + " " * BLANK_SPACE_CONTINUE
             last_line = ret.splitlines()[-1]
             # check if adding to end of comment: a comment runs to the end of its line
             if self._is_comment_line(last_line) or "$" in last_line:
